@@ -332,10 +332,11 @@ class Eval:
 
 
 def varid(run, name):
-    for n in run.nodes:
-        if n['op'] == 'var' and n['n'] == name:
-            return n['id']
-    return None
+    idx = getattr(run, '_varidx', None)
+    if idx is None:
+        idx = {n['n']: n['id'] for n in run.nodes if n['op'] == 'var'}
+        run._varidx = idx
+    return idx.get(name)
 
 
 def ensure_vars(run, low, names, w=64):
